@@ -134,6 +134,40 @@ class HDictLM(HookMix, LightNodeMixin):
         self.name = name
 
 
+class EqMix:
+    """Value-style equality: every instance compares equal to every other and hashes alike.
+
+    Such classes are legitimate users of the mixins (C01 quantifies over any node class); the library must
+    keep using identity.  The harness itself never applies ==/hash to nodes.
+    """
+
+    __slots__ = ()
+
+    def __eq__(self, other):
+        return isinstance(other, EqMix)
+
+    def __ne__(self, other):
+        return not isinstance(other, EqMix)
+
+    def __hash__(self):
+        return 7
+
+
+class HEqNM(EqMix, HookMix, NodeMixin):
+    separator = "/"
+
+    def __init__(self, name):
+        self.name = name
+
+
+class HEqLM(EqMix, HookMix, LightNodeMixin):
+    __slots__ = ("name",)
+    separator = "/"
+
+    def __init__(self, name):
+        self.name = name
+
+
 class HNode(HookMix, Node):
     pass
 
@@ -155,6 +189,8 @@ CLASSES = {
     "HNM": (lambda l: HNM(_name(l)), "NM", True),
     "HLM": (lambda l: HLM(_name(l)), "LM", True),
     "HDictLM": (lambda l: HDictLM(_name(l)), "LM", True),
+    "HEqNM": (lambda l: HEqNM(_name(l)), "NM", True),
+    "HEqLM": (lambda l: HEqLM(_name(l)), "LM", True),
     "HNode": (lambda l: HNode(_name(l)), "NM", True),
     "HAnyNode": (lambda l: HAnyNode(name=_name(l)), "NM", True),
     "HSymlink": (lambda l: HSymlink(Node("target-of-%s" % l)), "NM", True),
@@ -235,7 +271,8 @@ def _arrange(nodes, state, route):
                 nodes[p].children = [nodes[c] for c in state[p][1]]
 
 
-BAD_VALUES = {"int": 5, "str": "x", "obj": object(), "list": [], "none-in-list": None}
+# non-node values, truthy and falsy ones (a falsy non-node must be refused like any other)
+BAD_VALUES = {"int": 5, "str": "x", "obj": object(), "list": [], "none-in-list": None, "zero": 0, "empty-str": "", "empty-tuple": (), "false": False}
 
 
 def resolve(universe, arg):
@@ -609,6 +646,8 @@ def calls_for(n, family="NM", invalid=False, maxlen=None):
             yield ["parent", node, target]
         if invalid:
             yield ["parent", node, {"bad": "int"}]
+            yield ["parent", node, {"bad": "zero"}]
+            yield ["parent", node, {"bad": "empty-str"}]
     forms = itertools.cycle(["list", "tuple", "gen"])
     for node in labels:
         for seq in _shapes.sequences(labels, maxlen):
@@ -617,6 +656,7 @@ def calls_for(n, family="NM", invalid=False, maxlen=None):
             yield ["children", node, {"noniter": "int"}]
             yield ["children", node, {"noniter": "none"}]
             yield ["children", node, [{"bad": "str"}]]
+            yield ["children", node, [{"bad": "zero"}]]
             if n > 1:
                 yield ["children", node, [(node + 1) % n, {"bad": "int"}]]
     for node in labels:
@@ -649,7 +689,7 @@ def history_strategy(max_nodes=7, max_steps=30, faults="none", invalid=False, cl
         idx = st.integers(0, n - 1)
         node_arg = idx
         if invalid:
-            node_arg = st.one_of(idx, idx, idx, idx, st.sampled_from([{"bad": "int"}, {"bad": "str"}, {"bad": "obj"}]))
+            node_arg = st.one_of(idx, idx, idx, idx, st.sampled_from([{"bad": "int"}, {"bad": "str"}, {"bad": "obj"}, {"bad": "zero"}, {"bad": "empty-str"}, {"bad": "false"}, {"bad": "empty-tuple"}]))
         child_list = st.lists(node_arg, max_size=min(n, 5))
         parent_op = st.tuples(st.just("parent"), idx, st.one_of(st.none(), node_arg, node_arg)).map(list)
         children_op = st.tuples(st.just("children"), idx, child_list, st.sampled_from(["list", "tuple", "gen"])).map(list)
